@@ -9,4 +9,5 @@ for id in "$@"; do
   out=$(cd "$HOME_V" && VERIF_DIR_OVERRIDE="${VERIF_SCRATCH:-/tmp/mut/scratch_verif}" ./check "$id" quick 2>&1); code=$?
   echo "== $id exit=$code"; echo "$out" | grep -E "VIOLATION|signature|INCONCLUSIVE|INFRA" | head -6
 done
-git checkout -- . 
+git checkout -- .
+git clean -fdq packages
